@@ -151,6 +151,8 @@ def c01(tier):
     rng = random.Random(seed())
     quick = tier == "quick"
     cases = grams.curated("lang") + grams.curated("err")[:6]
+    # order-sensitivity and slow fixed points of the construction: the same grammars declared backwards, alias chains
+    cases += grams.chain_family() + grams.order_variants(grams.curated("lang"), rng, reverse=True, shuffles=0 if quick else 2)
     nrand = 60 if quick else 700
     cases += grams.random_grammars(seed(), nrand, prefix="rnd", sugar=0.3)
     cases += grams.random_grammars(seed() + 7919, nrand // 3, prefix="rnde", sugar=0.2, err=0.08)
@@ -425,6 +427,10 @@ def c09(tier):
                     continue    # reported once, as non-termination
                 if run["errs"][0] > b["fb"] and tvr.get("tv") == "ok" and b["fb"] in tvr.get("lost", []):
                     sig = "c09.first-error-discarded-by-later-recovery"
+                elif run["errs"][0] > b["fb"] and tvr.get("tv") == "ok" and b["fb"] in run["errs"] and not tvr.get("lost"):
+                    # nothing was lost: the Error of the first offending token is delivered, but after a later one,
+                    # because an enclosing production reduces after the productions nested to its right
+                    sig = "c09.first-offending-error-delivered-after-nested-one"
                 else:
                     sig = "c09.first-error-wrong-token:" + c["id"]
                 desc = "grammar %s input %s: first Error delivered carries token %d, first offending token is %d" % (
